@@ -255,7 +255,11 @@ func (f *fuzzEnv) hostileString(field string) string {
 		f.class(fmt.Sprintf("refid:%d", len(s)))
 		return s
 	}
-	switch f.r.Intn(6) {
+	switch f.r.Intn(7) {
+	case 6:
+		ws := []string{" ", "\n", "\t \r\n", "\u00a0", "   "}
+		f.class("str:whitespace")
+		return ws[f.r.Intn(len(ws))]
 	case 0:
 		f.class("str:empty")
 		return ""
